@@ -5,6 +5,7 @@ import (
 	"fmt"
 	"os"
 	"sort"
+	"strings"
 	"testing"
 	"unicode/utf8"
 
@@ -93,7 +94,7 @@ func sweepTargets(b []byte) []sweepTarget {
 
 // sweepBudget scales the sweep: lines per target, truncation offsets per target, scalars per
 // target whose sub-ranges are deleted.
-type sweepBudget struct{ lines, truncs, scalars, eolLines, jsonNodes, jsonRepl, affixDocMax, linePre int }
+type sweepBudget struct{ lines, truncs, scalars, eolLines, jsonNodes, jsonRepl, affixDocMax, linePre, affixes int }
 
 // sweepAffixes are put at the start and at the end of scalars.
 var sweepAffixes = []string{"\\", "\"", "'", "$", "${", "#", " ", "%", "\x00"}
@@ -208,7 +209,10 @@ func sweepMuts(body []byte, bud sweepBudget) [][]Mut {
 			if !picked[i] {
 				continue
 			}
-			for _, a := range sweepAffixes {
+			for k, a := range sweepAffixes {
+				if k >= bud.affixes {
+					break
+				}
 				out = append(out, []Mut{{Op: "strsuffix", A: i, S: a}}, []Mut{{Op: "strprefix", A: i, S: a}})
 			}
 		}
@@ -244,14 +248,15 @@ func TestC02_linesweep(t *testing.T) {
 	en := ev.NewEnumerator(t, col)
 	shard, shards := ev.Shard()
 	bud := sweepBudget{
-		lines:       ev.IntEnv("C02_SWEEP_LINES", ev.Scale(96, 1200)),
-		truncs:      ev.IntEnv("C02_SWEEP_TRUNCS", ev.Scale(48, 1024)),
-		scalars:     ev.IntEnv("C02_SWEEP_SCALARS", ev.Scale(5, 48)),
+		lines:       ev.IntEnv("C02_SWEEP_LINES", ev.Scale(48, 1200)),
+		truncs:      ev.IntEnv("C02_SWEEP_TRUNCS", ev.Scale(32, 1024)),
+		scalars:     ev.IntEnv("C02_SWEEP_SCALARS", ev.Scale(4, 48)),
 		eolLines:    ev.Scale(3, 8),
-		jsonNodes:   ev.IntEnv("C02_SWEEP_JSONNODES", ev.Scale(48, 600)),
+		jsonNodes:   ev.IntEnv("C02_SWEEP_JSONNODES", ev.Scale(32, 600)),
 		jsonRepl:    ev.Scale(5, len(jsonReplacements)),
 		affixDocMax: ev.Scale(1024, 1<<20),
-		linePre:     ev.Scale(2, 3),
+		linePre:     ev.Scale(1, 3),
+		affixes:     ev.Scale(5, len(sweepAffixes)),
 	}
 	only := os.Getenv("C02_ONLY")
 	var idx, ran, targets, auxTargets int
@@ -274,6 +279,28 @@ func TestC02_linesweep(t *testing.T) {
 	for _, e := range Registry() {
 		if only != "" && e.Name != only {
 			continue
+		}
+		// other spellings of the paths the extractor accepts (letter case of the base name and
+		// of its extensions): every spelling it accepts gets the unchanged fixture
+		spelled := map[string]bool{}
+		for _, f := range e.Fixtures {
+			if len(f.Paths) == 0 || len(spelled) > 12 {
+				continue
+			}
+			for _, p := range f.Paths[:1] {
+				for _, v := range caseVariants(p) {
+					if spelled[v] || !required(e.New, v, f.Size, f.Exec) {
+						continue
+					}
+					spelled[v] = true
+					if !run(c02Case{Leg: "linesweep", Extractor: e.Name, Path: v, Base: f.Rel}, "linesweep_path_spelling") {
+						break
+					}
+				}
+			}
+		}
+		if stopped {
+			break
 		}
 		auxDone := map[string]int{} // neighbour source -> fixtures it was swept with
 		for _, f := range e.Fixtures {
@@ -352,4 +379,38 @@ func TestC02_linesweep(t *testing.T) {
 		col.SetExtra("linesweep", fmt.Sprintf("%d cases over %d text fixtures / archive metadata members / ELF fixtures and %d neighbour files (budget per target: %d lines, %d cut-off offsets, %d scalars)", ran, targets, auxTargets, bud.lines, bud.truncs, bud.scalars))
 	}
 	completed = true
+}
+
+// caseVariants returns other spellings of a path: the base name in upper case, with its first
+// letter capitalised, with only its extensions in upper case or capitalised.
+func caseVariants(p string) []string {
+	dir, base := "", p
+	if i := strings.LastIndexByte(p, '/'); i >= 0 {
+		dir, base = p[:i+1], p[i+1:]
+	}
+	var out []string
+	add := func(b string) {
+		if b != base {
+			out = append(out, dir+b)
+		}
+	}
+	add(strings.ToUpper(base))
+	if len(base) > 0 {
+		add(strings.ToUpper(base[:1]) + base[1:])
+	}
+	if i := strings.IndexByte(base, '.'); i >= 0 {
+		stem, ext := base[:i], base[i:]
+		add(stem + strings.ToUpper(ext))
+		parts := strings.Split(ext[1:], ".")
+		for k := range parts {
+			if len(parts[k]) > 0 {
+				parts[k] = strings.ToUpper(parts[k][:1]) + parts[k][1:]
+			}
+		}
+		add(stem + "." + strings.Join(parts, "."))
+		if j := strings.LastIndexByte(base, '.'); j > i {
+			add(base[:j] + strings.ToUpper(base[j:]))
+		}
+	}
+	return out
 }
